@@ -235,13 +235,13 @@ def run_case(case):
         counters["group_creations_logged"] += sum(len(c) for c in world.creations.values())
         counters["set_interleavings"].append(f"{case['id']}:{world.interleaving_signature()}")
         d = dict(desc, interleaving=il)
+        if world.errors:
+            world.raise_errors()
         try:
             world.check_ledger(f"DDP W={S['W']} G={S['G']}")
         except Violation as v:
             v.witness.update(d)
             raise
-        if world.errors:
-            world.raise_errors()
         if len(results) != S["W"]:
             raise Inconclusive("a rank did not finish although no error or deadlock was recorded")
         d["_geometry"] = geo
